@@ -21,7 +21,7 @@ Print Assumptions C13_parse_into_addrinfo_exact.
 
 (* ... and spec_nodes invents nothing and drops nothing *)
 Theorem C13_nodes_are_the_records : forall port rrs nd, In nd (spec_nodes port rrs) <->
-  exists r, In r rrs /\ is_in r = true /\ n_port nd = port /\ n_ttl nd = to_int (rr_ttl r) /\
+  exists r, In r rrs /\ is_in r = true /\ n_port nd = port /\ n_ttl nd = ttl_to_int (rr_ttl r) /\
             ((rr_data r = RD_A (n_addr nd) /\ n_family nd = LEG_AF_INET) \/
              (rr_data r = RD_AAAA (n_addr nd) /\ n_family nd = LEG_AF_INET6)).
 Proof. exact spec_nodes_content. Qed.
@@ -118,8 +118,9 @@ Theorem C13_getaddrinfo_exact : forall hf lookups name family port flags p4 p6 r
   Forall (round_wf family) rounds ->
   getaddrinfo hf lookups name family (Some port) flags p4 p6 ARES_SUCCESS rounds = Ok (ARES_SUCCESS, Some ai) ->
   match fake_addrinfo name family port flags p4 p6 with
-  | Some lit => ai = lit
-  | None => ai_nodes ai = spec_lookup_nodes hf name family port lookups rounds /\ ai_nodes ai <> []
+  | FAddr lit => ai = lit
+  | FFail _ => False
+  | FNone => ai_nodes ai = spec_lookup_nodes hf name family port lookups rounds /\ ai_nodes ai <> []
   end.
 Proof. exact getaddrinfo_exact. Qed.
 Print Assumptions C13_getaddrinfo_exact.
@@ -149,21 +150,19 @@ Theorem C13_hosts_entry_nodes : forall ips family port acc,
 Proof. exact entry_nodes_spec. Qed.
 Print Assumptions C13_hosts_entry_nodes.
 
-(* literals *)
+(* literals (with fixes/C13-gai-literal-family.patch) *)
 Theorem C13_literal_node : forall name family port flags p4 p6 ai,
-  fake_addrinfo name family port flags p4 p6 = Some ai ->
-  exists a, (ai_nodes ai = [mkNode LEG_AF_INET a port 0] /\ p4 = Some a) \/
+  fake_addrinfo name family port flags p4 p6 = FAddr ai ->
+  exists a, (ai_nodes ai = [mkNode LEG_AF_INET a port 0] /\ p4 = Some a /\ family <> LEG_AF_INET6) \/
             (ai_nodes ai = [mkNode LEG_AF_INET6 a port 0] /\ p6 = Some a /\ family <> LEG_AF_INET).
 Proof. exact literal_node. Qed.
 Print Assumptions C13_literal_node.
 
-(* full statement would add "family <> AF_INET6" to the first alternative; the code accepts a
-   dotted quad for AF_INET6 (finding wrong-family-literal) *)
-Theorem C13_literal_family_refuted :
-  exists name p4 ai, fake_addrinfo name LEG_AF_INET6 0 0 (Some p4) None = Some ai /\
-                     ai_nodes ai = [mkNode LEG_AF_INET p4 0 0].
-Proof. exact literal_family_refuted. Qed.
-Print Assumptions C13_literal_family_refuted.
+Theorem C13_literal_other_family : forall name port flags p4 p6 a,
+  forallb is_digit_dot name && Nat.eqb (count_dots name) 3 = true -> p4 = Some a ->
+  fake_addrinfo name LEG_AF_INET6 port flags p4 p6 = FFail ARES_ENOTFOUND.
+Proof. exact literal_other_family. Qed.
+Print Assumptions C13_literal_other_family.
 
 (* reverse lookups: the only name ever queried is the reverse-map name; the names returned are
    the PTR targets of the accepted answer *)
@@ -180,3 +179,26 @@ Theorem C13_ghba_names : forall hf family addr rest rec more q qs, addr_ok famil
     spec_ptr rec (Some addr) (Z.of_nat (length addr)) family.
 Proof. exact ghba_names. Qed.
 Print Assumptions C13_ghba_names.
+
+(* hosts file, completeness of the merge (ares_hosts_file_add): the first line that mentions a
+   name contributes its address to what the name resolves to, later lines only add; and no
+   line is dropped - every line's address is found by the reverse lookup *)
+Theorem C13_hosts_first_mention : forall pre l post x,
+  In x (hl_hosts l) ->
+  (forall l' y, In l' pre -> In y (hl_hosts l') -> strcaseeq y x = false) ->
+  exists e, hosts_search_host (hosts_build (pre ++ l :: post)) x = Some e /\ In (hl_ip l) (he_ips e).
+Proof. exact hosts_first_mention. Qed.
+Print Assumptions C13_hosts_first_mention.
+
+Theorem C13_hosts_first_mention_node : forall pre l post x family port,
+  In x (hl_hosts l) ->
+  (forall l' y, In l' pre -> In y (hl_hosts l') -> strcaseeq y x = false) ->
+  (family = LEG_AF_UNSPEC \/ family = fst (hl_ip l)) ->
+  In (mkNode (fst (hl_ip l)) (snd (hl_ip l)) port 0) (spec_hosts_nodes (hosts_build (pre ++ l :: post)) x family port).
+Proof. exact hosts_first_mention_node. Qed.
+Print Assumptions C13_hosts_first_mention_node.
+
+Theorem C13_hosts_every_line : forall pre l post,
+  exists e, hosts_search_ip (hosts_build (pre ++ l :: post)) (hl_ip l) = Some e /\ In (hl_ip l) (he_ips e).
+Proof. exact hosts_every_line. Qed.
+Print Assumptions C13_hosts_every_line.
